@@ -5,7 +5,7 @@ from sa.effects import Effects, all_events
 from sa.terms import C, CallT, P, SubC, access_path, is_call, is_const, is_lit, root_of, show
 from sa.walker import flatten_events
 
-from . import fn_site, mentions
+from . import cond_roots, fn_site, mentions, refuted_at_defaults
 from .signer import canon_bytes
 
 EXPLANATION = (
@@ -63,6 +63,27 @@ def writer_model(ctx, rule="R1"):
         if not ser or not opens or min(ser) > opens[0][0]:
             ok_all, why = False, "serialization does not precede the open (truncating) call"
             break
+    # the writer persists whatever the serializer can serialize: it fails through the serializer
+    # (the value has no canonical form) or through the file system, and in no other way
+    refusals = {}
+    for p in sm.paths:
+        if p.kind != "raise":
+            continue
+        x = p.value
+        if x.origin in ("resource", "io-write") or "json.dumps" in x.why:
+            continue
+        if any("canonserialize(" in st_.text or st_.fn == "common.canonserialize" for st_ in x.chain[:-1]) or x.chain[-1].fn == "common.canonserialize":
+            continue  # the serializer turned the value away (what it may turn away is C07's rule)
+        if x.origin == "implicit" and eng.prog.exc_is_sub(x.exc, "OSError"):
+            continue
+        roots = cond_roots(x)
+        if x.origin == "implicit" and roots and roots <= {P(sm.params[1])}:
+            continue  # (a file name that is not a path)
+        if x.origin == "implicit" and any(ev[0] == "call" and ev[1] == x.chain[-1] and ev[5][0] == "raise" and isinstance(ev[2], str) and ev[2].startswith(("builtin:open", "ext:os.", "ext:tempfile.", "ext:shutil.", "ext:pathlib.", "method:write", "method:close", "method:flush", "method:fileno")) for ev in all_events(p.events)):
+            continue  # (the file-system call itself turning its arguments away)
+        refusals.setdefault((x.exc, x.chain[-1].key()), x)
+    for (exc, k), x in sorted(refusals.items()):
+        ctx.ob(rule, "writer-refuses|%s|%s" % (exc, k), x.chain[-1].loc(), "write_metadata_to_file can fail with %s (%s) although the value serializes and the file system works: metadata that verifies in memory cannot be persisted" % (exc, x.why[:80]), False)
     ctx.count(rule + ".writer_paths", len(rets))
     ctx.ob(rule, "writer", site.loc(), "write_metadata_to_file " + ("writes exactly canonserialize(metadata), once, to the named file in binary mode, serialized before the file is opened" if ok_all else "deviates: " + why), ok_all)
 
@@ -281,9 +302,12 @@ def _inplace_signers(ctx, rule="R3"):
         # file based: loaded value L = load_metadata_from_file(<path param>)
         L = eng.expand(eng.repo_call("common.load_metadata_from_file", p0))
         stores, written = [], []
+        documented = tuple(sm.params[:2])
         for p in sm.paths:
             if p.kind != "return":
                 continue
+            if refuted_at_defaults(eng, q, documented, set(p.facts)):
+                continue  # (only with a non-default value of an optional parameter added later, e.g. out=)
             for ev in all_events(p.events):
                 if ev[0] in ("store", "del", "mutcall") and root_of(ev[2]) == L:
                     stores.append(ev)
